@@ -8,6 +8,7 @@ objectives; the run-level theorems quantify over every line-search type, every i
 -/
 import SharkVerif.Props.C10
 import SharkVerif.Lemmas.LineSearches
+import SharkVerif.Model.TrustRegion
 namespace SharkVerif.C10
 open SharkVerif.Opt SharkVerif.BFGS
 
@@ -498,5 +499,146 @@ example (e : Env α) (hls : LSSound e.ls) (eta b1 b2 eps : α) (x0 x1 : Vec α) 
       (HOp.apply e) (.adam (Adam.init e.o eta b1 b2 eps x0))).best :=
   best_value_is_f_best_point_history e hls _ (.adam eta b1 b2 eps x0) _
 end history
+
+/-! ## TrustRegionNewton -/
+
+section trn
+variable {α : Type} [Scalar α]
+
+theorem trn_step_consistent (sqrt : α → α) (o : Objective α) (hess : Vec α → Mat α) (s : TRN α)
+    (h : s.best.value = o.f s.best.point ∧ s.gradient = o.grad s.best.point ∧ s.hessian = hess s.best.point) :
+    (s.step sqrt o hess).best.value = o.f (s.step sqrt o hess).best.point ∧
+    (s.step sqrt o hess).gradient = o.grad (s.step sqrt o hess).best.point ∧
+    (s.step sqrt o hess).hessian = hess (s.step sqrt o hess).best.point := by
+  unfold TRN.step
+  dsimp only
+  split_ifs <;> first | exact h | exact ⟨rfl, rfl, rfl⟩
+
+/-- **trn_value_is_f_point.**  TrustRegionNewton, every scalar type (incl. `Float`), every objective, Hessian
+function, starting point, initial radius and number of steps: the reported value is the objective at the reported
+point, and the stored gradient and Hessian are those of the reported point (a rejected step keeps all of them). -/
+theorem trn_value_is_f_point (sqrt : α → α) (o : Objective α) (hess : Vec α → Mat α) (x0 : Vec α) (delta0 : α) (k : Nat) :
+    let run := iterN (TRN.step sqrt o hess) (TRN.init o hess x0 delta0)
+    (run k).best.value = o.f (run k).best.point ∧ (run k).gradient = o.grad (run k).best.point ∧
+      (run k).hessian = hess (run k).best.point := by
+  intro run
+  induction k with
+  | zero => exact ⟨rfl, rfl, rfl⟩
+  | succ k ih => exact trn_step_consistent sqrt o hess _ ih
+end trn
+
+/-- **trn_step_no_increase_partial.**  The acceptance rule of `TrustRegionNewton::step` (`rho = (f_new - f_old) /
+predicted ≥ minImprovementRatio`) never increases the objective, provided `minImprovementRatio ≥ 0` and the model
+change reported by the sub-problem solver is not positive.  (That `trustRegionCG` only ever predicts a decrease is
+CG theory which is not proved here; the driver checks it on every tied step.  With the sign error of finding F10 in
+`borderDistance` the prediction was positive and increases were accepted.) -/
+theorem trn_step_no_increase_partial (sqrt : Rat → Rat) (o : Objective Rat) (hess : Vec Rat → Mat Rat) (s : TRN Rat)
+    (hm : 0 ≤ s.minImprovementRatio) (hpred : (TRN.subproblem sqrt s).1 ≤ 0) :
+    (s.step sqrt o hess).best.value ≤ s.best.value := by
+  unfold TRN.step
+  dsimp only
+  split_ifs with h0 h1 h2 h3 h4 <;> try exact le_refl _
+  all_goals
+    have hne : (TRN.subproblem sqrt s).1 ≠ 0 := by
+      intro hz; apply h0; rw [hz]; simp [Scalar.beq, Scalar.zero, Scalar.ofRat]
+    have hneg : (TRN.subproblem sqrt s).1 < 0 := lt_of_le_of_ne hpred hne
+    have hrho : 0 ≤ (o.f (Vec.add s.best.point (TRN.subproblem sqrt s).2) - s.best.value) / (TRN.subproblem sqrt s).1 := by
+      first | exact le_trans hm h1 | exact le_trans hm h2 | exact le_trans hm h3 | exact le_trans hm h4
+    have : o.f (Vec.add s.best.point (TRN.subproblem sqrt s).2) - s.best.value ≤ 0 := by
+      by_contra hpos
+      have hpos' : 0 < o.f (Vec.add s.best.point (TRN.subproblem sqrt s).2) - s.best.value := not_le.mp hpos
+      have := div_neg_of_pos_of_neg hpos' hneg
+      linarith
+    show o.f (Vec.add s.best.point (TRN.subproblem sqrt s).2) ≤ s.best.value
+    linarith
+
+/-- non-vacuity + what the hypothesis excludes: `f(x) = x²` at `x = 1`, radius 1/2, `sqrt` exact on the numbers that
+occur: the sub-problem returns the border point `-1/2` with predicted change `-3/4`, the step is accepted -/
+example :
+    let o : Objective Rat := ⟨fun x => Vec.get x 0 * Vec.get x 0, fun x => [2 * Vec.get x 0], fun _ => true, false, [], []⟩
+    let sq : Rat → Rat := fun x => if x = 4 then 2 else if x = 1/16 then 1/4 else 1
+    let s := TRN.init o (fun _ => [[2]]) [1] (1/2)
+    (TRN.subproblem sq s) = (-3/4, [-1/2]) ∧ (s.step sq o (fun _ => [[2]])).best.point = [1/2] := by
+  norm_num [TRN.init, TRN.subproblem, TRN.step, TR.trustRegionCG, TR.cgLoop, TR.toBorder, TR.borderDistance,
+    TR.errorDifference, Vec.normSqr, Vec.dot, Vec.neg, Vec.axpy, Vec.add, Vec.zeros, Vec.get, Mat.mulVec, Scalar.min, Scalar.half,
+    Scalar.two, Scalar.zero, Scalar.beq, Scalar.ofRat]
+
+/-! ### the CG–Steihaug solution stays inside the trust region -/
+
+theorem normSqr_axpy : ∀ (z d : Vec Rat) (t : Rat), d.length = z.length →
+    Vec.normSqr (Vec.axpy z t d) = Vec.normSqr z + 2 * t * Vec.dot d z + t * t * Vec.normSqr d := by
+  intro z
+  induction z with
+  | nil => intro d t h; have : d = [] := List.length_eq_zero_iff.mp h; subst this; simp [Vec.normSqr, Vec.axpy, dot_nil_left]
+  | cons x xs ih =>
+    intro d t h
+    match d, h with
+    | y :: ys, h =>
+      have := ih ys t (by simpa using h)
+      simp only [Vec.normSqr, Vec.axpy, List.zipWith_cons_cons] at this ⊢
+      rw [dot_cons, dot_cons, dot_cons, dot_cons, this]; ring
+
+/-- **trn_border_on_sphere.**  The boundary exits of `trustRegionCG` land exactly on the trust-region sphere:
+`‖z + tau·d‖² = delta²` for `tau = borderDistance(z, d, delta)`, whenever `d ≠ 0` and `sqrt` is exact at the one
+discriminant it is applied to (`r·r = (p/2)² - q`).  In floating point the identity holds up to rounding; the tie
+compares the step bit for bit / to 1e-9. -/
+theorem trn_border_on_sphere (sqrt : Rat → Rat) (z d : Vec Rat) (delta : Rat) (hl : d.length = z.length)
+    (hd : Vec.normSqr d ≠ 0)
+    (hs : let p := 2 * Vec.dot d z / Vec.normSqr d
+          let q := (Vec.normSqr z - delta * delta) / Vec.normSqr d
+          sqrt ((p / 2) * (p / 2) - q) * sqrt ((p / 2) * (p / 2) - q) = (p / 2) * (p / 2) - q) :
+    Vec.normSqr (Vec.axpy z (TR.borderDistance sqrt z d delta) d) = delta * delta := by
+  rw [normSqr_axpy z d _ hl]
+  unfold TR.borderDistance
+  simp only [Scalar.two, Scalar.ofRat] at hs ⊢
+  set D := Vec.normSqr d
+  set Z := Vec.normSqr z
+  set W := Vec.dot d z
+  set r := sqrt (2 * W / D / 2 * (2 * W / D / 2) - (Z - delta * delta) / D) with hr
+  have hs' : r * r = 2 * W / D / 2 * (2 * W / D / 2) - (Z - delta * delta) / D := hs
+  have : Z + 2 * (-(2 * W / D) / 2 + r) * W + (-(2 * W / D) / 2 + r) * (-(2 * W / D) / 2 + r) * D
+      = delta * delta + D * (r * r - (2 * W / D / 2 * (2 * W / D / 2) - (Z - delta * delta) / D)) := by
+    field_simp; ring
+  rw [this, hs']; ring
+
+/-- **trn_cg_interior_inside.**  Every exit of the CG–Steihaug loop other than a boundary exit returns a step strictly
+inside the trust region: the loop tests `‖step + alpha·d‖² ≥ delta²` *before* it moves.  Formally: started inside,
+`cgLoop` returns a step with `‖step‖² < delta²`, or its result is `toBorder` of a state whose step is inside
+(and then `trn_border_on_sphere` applies). -/
+theorem trn_cg_interior_inside (sqrt : Rat → Rat) (H : Mat Rat) (g : Vec Rat) (tol delta : Rat) :
+    ∀ (k : Nat) (s : TR.CGSt Rat), Vec.normSqr s.step < delta * delta →
+      Vec.normSqr (TR.cgLoop sqrt H g tol delta k s).2 < delta * delta ∨
+      ∃ s' Hdir, Vec.normSqr s'.step < delta * delta ∧ TR.cgLoop sqrt H g tol delta k s = TR.toBorder sqrt g delta s' Hdir := by
+  intro k
+  induction k with
+  | zero => intro s h; exact Or.inl h
+  | succ k ih =>
+    intro s h
+    unfold TR.cgLoop
+    dsimp only
+    split_ifs with h1 h2 h3
+    · exact Or.inr ⟨s, _, h, rfl⟩
+    · exact Or.inr ⟨s, _, h, rfl⟩
+    · exact Or.inl (not_le.mp h2)
+    · exact ih _ (not_le.mp h2)
+
+/-- the whole sub-problem solver: the returned step is inside, or it is a boundary exit from an inside state
+(`delta ≠ 0`) -/
+theorem trn_cg_inside (sqrt : Rat → Rat) (H : Mat Rat) (g : Vec Rat) (tol delta : Rat) (hdelta : delta ≠ 0) :
+    Vec.normSqr (TR.trustRegionCG sqrt H g tol delta).2 < delta * delta ∨
+    ∃ s' Hdir, Vec.normSqr s'.step < delta * delta ∧ TR.trustRegionCG sqrt H g tol delta = TR.toBorder sqrt g delta s' Hdir := by
+  have hz : Vec.normSqr (Vec.zeros g.length : Vec Rat) < delta * delta := by
+    have : Vec.normSqr (Vec.zeros g.length : Vec Rat) = 0 := by
+      unfold Vec.zeros
+      generalize g.length = n
+      induction n with
+      | zero => simp [Vec.normSqr, dot_nil_left]
+      | succ n ih => simp only [List.replicate_succ, Vec.normSqr] at ih ⊢; rw [dot_cons, ih]; simp [Scalar.zero, Scalar.ofRat]
+    rw [this]; exact mul_self_pos.mpr hdelta
+  unfold TR.trustRegionCG
+  dsimp only
+  split_ifs
+  · exact Or.inl hz
+  · exact trn_cg_interior_inside sqrt H g tol delta _ _ hz
 
 end SharkVerif.C10
